@@ -26,7 +26,7 @@ CASE_TIMEOUT = 120
 
 OFFSETS = [-5.0, -0.000001, 0.0004, 0.3, 0.9995, 1.0, 1.5, 5.0, 3600.0, 2592000.0]
 PHASES = [0.0, 0.000001, 0.05, 0.1234, 0.25, 0.45, 0.5, 0.6, 0.75, 0.9, 0.999, 0.9999]
-CMODES = ["before", "after:0.01", "after:0.2", "after:0.7", "after:1.1", "afterT"]
+CMODES = ["before", "after:0.01", "after:0.2", "after:0.7", "after:1.1", "afterT", "atT", "pollT"]
 VIAS = ["api", "job_until", "job_by"]
 
 
@@ -117,6 +117,27 @@ async def single(loop, kind, item, lat, seed, out, stats, fps, samples):
             await asyncio.sleep(1.0)
             await rig.quiesce_wire()
             loop.jump_to(tT - 2.0)
+        if cmode == "atT" and 0 < off < 100000:
+            # the consumer is switched on exactly at T (every "is it due yet" comparison at its boundary)
+            await asyncio.sleep(0.001)
+            await rig.quiesce_wire()
+            loop.jump_to(tT)
+        if cmode == "pollT" and 0 < off < 100000 and t_cons is None:
+            # a running consumer whose periodic look at the delayed store falls exactly on T
+            await cons.start()
+            t_cons = loop.time()
+            probe = loop.create_task(cons.consume())
+            await asyncio.sleep(0.0005)
+            await rig.quiesce_wire()
+            loop.jump_to(tT - 1.0005 if tT - 1.0005 > loop.time() else loop.time())
+            try:
+                key, payload, params = await asyncio.wait_for(probe, max(0.01, (max(tT, t_cons) + L_BOUND + 3.0) - loop.time()))
+                pre_delivered = loop.time()
+                await mb.ack(key)
+            except asyncio.TimeoutError:
+                pre_delivered = None
+        else:
+            pre_delivered = "n/a"
         if cmode == "afterT":
             if off > 100000:
                 await asyncio.sleep(1.0)
@@ -127,12 +148,15 @@ async def single(loop, kind, item, lat, seed, out, stats, fps, samples):
             t_cons = loop.time()
         horizon = (max(tT, t_cons) + L_BOUND + 3.0) if off < 100000 else loop.time() + 15.0
         delivered = None
-        try:
-            key, payload, params = await asyncio.wait_for(cons.consume(), max(0.01, horizon - loop.time()))
-            delivered = loop.time()
-            await mb.ack(key)
-        except asyncio.TimeoutError:
-            pass
+        if pre_delivered != "n/a":
+            delivered = pre_delivered
+        else:
+            try:
+                key, payload, params = await asyncio.wait_for(cons.consume(), max(0.01, horizon - loop.time()))
+                delivered = loop.time()
+                await mb.ack(key)
+            except asyncio.TimeoutError:
+                pass
         ctx = f"{via}"
         stats["deliveries_judged"] += 1
         stats["due_past" if off <= 0 else "due_subsecond" if off < 1 else "due_seconds" if off < 100 else "due_far"] += 1
